@@ -115,6 +115,40 @@ Theorem C18_engine_agrees_with_closed_form_on_grid :
 Proof. exact engine_agrees_with_closed_form_on_grid. Qed.
 Print Assumptions C18_engine_agrees_with_closed_form_on_grid.
 
+(* the simulated tasks apply the blocks of the closed form to the bytes they receive *)
+Theorem C18_outstation_applies_o_handle : forall cfg s seq r,
+  (seq < 16)%N ->
+  match r with TsRWriteAbs ts | TsRWriteLast ts => 0 <= ts <= ts_max | _ => True end ->
+  tos_last (tss_o s) = None ->
+  let res := o_handle (tsc_mode cfg) (tss_rep s) (tos_time (tss_o s)) (tss_now s) r in
+  exists s' rest,
+    o_deliver cfg s (ts_enc_req seq r) =
+      (s', match or_written res with Some v => TsWritten (tss_now s) v :: rest | None => rest end) /\
+    tos_time (tss_o s') = or_st res /\
+    (forall t v, ~ In (TsWritten t v) rest).
+Proof. exact o_deliver_uses_o_handle. Qed.
+Print Assumptions C18_outstation_applies_o_handle.
+
+Theorem C18_master_applies_m_handle : forall cfg s t iin1 iin2 objs,
+  tm_cur (tss_m s) = Some t -> (mt_seq t < 16)%N ->
+  N.testbit iin1 7 = false -> N.land iin2 7 = 0%N ->
+  m_deliver cfg s (ts_enc_resp (mt_seq t) iin1 iin2 objs) =
+    match m_handle (mt_state t) (ts_clock (tss_on s) (tsc_c0 cfg) (tss_now s)) (tss_now s)
+                   (N.testbit iin1 4) (ts_classify_objs objs) with
+    | TsFail e => m_finish cfg s (mt_token t) (Some e)
+    | TsDone => m_finish cfg s (mt_token t) None
+    | TsNext st =>
+        let sq := tm_seq (tss_m s) in
+        ts_master_wrote
+          (ts_set_m s {| tm_seq := ts_seq_next sq;
+                         tm_cur := Some {| mt_token := mt_token t; mt_state := st; mt_seq := sq;
+                                           mt_deadline := tss_now s + tsc_tmo cfg |};
+                         tm_q := tm_q (tss_m s) |})
+          (ts_enc_req sq (ts_req_of st))
+    end.
+Proof. exact m_deliver_uses_m_handle. Qed.
+Print Assumptions C18_master_applies_m_handle.
+
 (* ---- non-vacuity ---- *)
 Definition ex_sched (c0 f1 b1 f2 b2 rep : Z) : ts_sched :=
   {| tsp_c0 := c0; tsp_on := true; tsp_t0 := 0; tsp_f1 := f1; tsp_b1 := b1; tsp_f2 := f2; tsp_b2 := b2;
